@@ -72,8 +72,11 @@ struct Cx<'tcx> {
     /// non-local, fully concrete callee instances whose MIR is available (inlinable library code)
     ext_todo: std::cell::RefCell<Vec<Instance<'tcx>>>,
     ext_seen: std::cell::RefCell<std::collections::BTreeSet<String>>,
+    ext_generic_todo: std::cell::RefCell<Vec<DefId>>,
     /// Some(..) while dumping a monomorphised library body
     mono: std::cell::Cell<bool>,
+    cur_owner: std::cell::Cell<Option<DefId>>,
+    fnref_depth: std::cell::Cell<u32>,
 }
 
 fn span_json(tcx: TyCtxt<'_>, sp: Span) -> (String, bool) {
@@ -175,10 +178,33 @@ impl<'tcx> Cx<'tcx> {
             ]),
             ty::Str => J::obj(vec![("k", J::s("str"))]),
             ty::Never => J::obj(vec![("k", J::s("never"))]),
-            ty::FnDef(did, args) => J::obj(vec![
-                ("k", J::s("fndef")),
-                ("path", J::Str(self.tcx.def_path_str(*did))),
-                ("args", self.generic_args(args)),
+            ty::FnDef(did, args) => {
+                let mut v = vec![
+                    ("k", J::s("fndef")),
+                    ("path", J::Str(self.tcx.def_path_str(*did))),
+                    ("args", self.generic_args(args)),
+                ];
+                if let Some(owner) = self.cur_owner.get() {
+                    // guard against unbounded recursion through types mentioning themselves
+                    let d = self.fnref_depth.get();
+                    if d < 3 {
+                        self.fnref_depth.set(d + 1);
+                        v.push(("fn", self.fn_ref(owner, *did, args)));
+                        self.fnref_depth.set(d);
+                    }
+                }
+                J::obj(v)
+            }
+            ty::FnPtr(..) => J::obj(vec![("k", J::s("fnptr")), ("s", J::Str(format!("{:?}", t)))]),
+            ty::Dynamic(preds, ..) => J::obj(vec![
+                ("k", J::s("dyn")),
+                (
+                    "trait",
+                    match preds.principal_def_id() {
+                        Some(d) => J::Str(self.tcx.def_path_str(d)),
+                        None => J::Null,
+                    },
+                ),
             ]),
             _ => J::obj(vec![("k", J::s("other")), ("s", J::Str(format!("{:?}", t)))]),
         }
@@ -242,6 +268,31 @@ impl<'tcx> Cx<'tcx> {
         }
         if let Some(tr) = tcx.trait_of_assoc(did) {
             v.push(("trait", J::Str(tcx.def_path_str(tr))));
+            v.push(("method", J::Str(tcx.opt_item_name(did).map(|n| n.to_string()).unwrap_or_default())));
+        }
+        if let DefKind::Ctor(of, _) = tcx.def_kind(did) {
+            // constructor function of a tuple struct / tuple variant
+            let parent = tcx.parent(did);
+            match of {
+                rustc_hir::def::CtorOf::Variant => {
+                    let adt_did = tcx.parent(parent);
+                    let adt = tcx.adt_def(adt_did);
+                    let vi = adt.variant_index_with_id(parent);
+                    v.push((
+                        "ctor",
+                        J::obj(vec![
+                            ("adt", J::Str(tcx.def_path_str(adt_did))),
+                            ("variant", J::Int(vi.as_usize() as i128)),
+                        ]),
+                    ));
+                }
+                rustc_hir::def::CtorOf::Struct => {
+                    v.push((
+                        "ctor",
+                        J::obj(vec![("adt", J::Str(tcx.def_path_str(parent))), ("variant", J::Int(0))]),
+                    ));
+                }
+            }
         }
         // resolution
         let env = self.env(owner);
@@ -252,14 +303,22 @@ impl<'tcx> Cx<'tcx> {
                     && matches!(inst.def, ty::InstanceKind::Item(_))
                     && tcx.is_mir_available(rd)
                     && tcx.intrinsic(rd).is_none()
-                    && !inst.args.iter().any(|a| {
+                {
+                    let generic = inst.args.iter().any(|a| {
                         use rustc_middle::ty::TypeVisitableExt;
                         a.has_non_region_param()
-                    })
-                {
-                    let key = tcx.def_path_str_with_args(rd, inst.args);
-                    if self.ext_seen.borrow_mut().insert(key) {
-                        self.ext_todo.borrow_mut().push(inst);
+                    });
+                    if generic {
+                        // cannot be monomorphised here: keep the polymorphic body, keyed by path
+                        let key = format!("generic:{}", tcx.def_path_str(rd));
+                        if self.ext_seen.borrow_mut().insert(key) {
+                            self.ext_generic_todo.borrow_mut().push(rd);
+                        }
+                    } else {
+                        let key = tcx.def_path_str_with_args(rd, inst.args);
+                        if self.ext_seen.borrow_mut().insert(key) {
+                            self.ext_todo.borrow_mut().push(inst);
+                        }
                     }
                 }
                 let kind = match inst.def {
@@ -313,7 +372,7 @@ impl<'tcx> Cx<'tcx> {
             }
         }
         // structured constant (array / tuple / ADT of scalars): destructure via const eval
-        if matches!(t.kind(), ty::Array(..) | ty::Tuple(..) | ty::Adt(..)) {
+        if matches!(t.kind(), ty::Array(..) | ty::Tuple(..) | ty::Adt(..) | ty::Ref(..) | ty::FnPtr(..)) {
             if let Ok(val) = c.eval(tcx, env, rustc_span::DUMMY_SP) {
                 if let Some(j) = self.const_value(val, t, 0) {
                     v.push(("val", j));
@@ -338,6 +397,14 @@ impl<'tcx> Cx<'tcx> {
     /// Structured value of an evaluated constant: {"int":n} | {"elems":[..]} (array/tuple) |
     /// {"variant":i,"fields":[..]} (ADT).  None if anything is not plain data.
     fn const_value(&self, val: rustc_middle::mir::ConstValue, t: Ty<'tcx>, depth: usize) -> Option<J> {
+        let r = self.const_value_inner(val, t, depth);
+        if r.is_none() && std::env::var("PKV_DEBUG").is_ok() {
+            eprintln!("pkv: const_value failed at depth {} for type {:?} value {:?}", depth, t, val);
+        }
+        r
+    }
+
+    fn const_value_inner(&self, val: rustc_middle::mir::ConstValue, t: Ty<'tcx>, depth: usize) -> Option<J> {
         let tcx = self.tcx;
         if depth > 6 {
             return None;
@@ -369,6 +436,121 @@ impl<'tcx> Cx<'tcx> {
                     _ => o.push(("elems", J::Arr(fields))),
                 }
                 Some(J::obj(o))
+            }
+            ty::Ref(_, inner, _) | ty::RawPtr(inner, _) => {
+                use rustc_middle::mir::interpret::{GlobalAlloc, Scalar};
+                use rustc_middle::mir::ConstValue;
+                let ptr_size = tcx.data_layout.pointer_size();
+                // (pointer scalar, optional length metadata)
+                let (scalar, meta): (Scalar, Option<u64>) = match val {
+                    ConstValue::Scalar(s) => (s, None),
+                    ConstValue::Slice { alloc_id, meta } => {
+                        let elem = match inner.kind() {
+                            ty::Slice(e) => *e,
+                            _ => return None,
+                        };
+                        let arr = Ty::new_array(tcx, elem, meta);
+                        let j = self.const_value(
+                            ConstValue::Indirect { alloc_id, offset: rustc_abi::Size::ZERO },
+                            arr,
+                            depth + 1,
+                        )?;
+                        return Some(J::obj(vec![("ty", self.ty(t)), ("ref", j)]));
+                    }
+                    ConstValue::Indirect { alloc_id, offset } => {
+                        // a pointer stored inside a larger constant: read it from the allocation
+                        let alloc = match tcx.global_alloc(alloc_id) {
+                            GlobalAlloc::Memory(a) => a,
+                            _ => return None,
+                        };
+                        let a = alloc.inner();
+                        let s = a
+                            .read_scalar(&tcx, rustc_middle::mir::interpret::alloc_range(offset, ptr_size), true)
+                            .ok()?;
+                        let is_fat = matches!(inner.kind(), ty::Slice(_) | ty::Str | ty::Dynamic(..));
+                        let m = if is_fat {
+                            let ms = a
+                                .read_scalar(
+                                    &tcx,
+                                    rustc_middle::mir::interpret::alloc_range(offset + ptr_size, ptr_size),
+                                    false,
+                                )
+                                .ok()?;
+                            match ms { Scalar::Int(i) => Some(i.to_target_usize(tcx)), _ => return None }
+                        } else {
+                            None
+                        };
+                        (s, m)
+                    }
+                    _ => return None,
+                };
+                let ptr = match scalar {
+                    Scalar::Ptr(p, _) => p,
+                    _ => return None,
+                };
+                let (prov, offset) = ptr.prov_and_relative_offset();
+                let alloc_id = prov.alloc_id();
+                match tcx.global_alloc(alloc_id) {
+                    GlobalAlloc::Memory(_) => {
+                        let pointee = match (inner.kind(), meta) {
+                            (ty::Slice(e), Some(n)) => Ty::new_array(tcx, *e, n),
+                            (ty::Slice(_), None) | (ty::Str, _) | (ty::Dynamic(..), _) => return None,
+                            _ => *inner,
+                        };
+                        let j = self.const_value(ConstValue::Indirect { alloc_id, offset }, pointee, depth + 1)?;
+                        Some(J::obj(vec![("ty", self.ty(t)), ("ref", j)]))
+                    }
+                    GlobalAlloc::Static(did) => Some(J::obj(vec![
+                        ("ty", self.ty(t)),
+                        ("static_ref", J::Str(tcx.def_path_str(did))),
+                        ("offset", J::Int(offset.bytes() as i128)),
+                        (
+                            "len",
+                            match meta {
+                                Some(n) => J::Int(n as i128),
+                                None => J::Null,
+                            },
+                        ),
+                    ])),
+                    _ => None,
+                }
+            }
+            ty::FnPtr(..) => {
+                use rustc_middle::mir::interpret::{GlobalAlloc, Scalar};
+                use rustc_middle::mir::ConstValue;
+                let scalar = match val {
+                    ConstValue::Scalar(s) => s,
+                    ConstValue::Indirect { alloc_id, offset } => {
+                        let alloc = match tcx.global_alloc(alloc_id) {
+                            GlobalAlloc::Memory(a) => a,
+                            _ => return None,
+                        };
+                        alloc
+                            .inner()
+                            .read_scalar(
+                                &tcx,
+                                rustc_middle::mir::interpret::alloc_range(offset, tcx.data_layout.pointer_size()),
+                                true,
+                            )
+                            .ok()?
+                    }
+                    _ => return None,
+                };
+                let ptr = match scalar {
+                    Scalar::Ptr(p, _) => p,
+                    _ => return None,
+                };
+                let (prov, _off) = ptr.prov_and_relative_offset();
+                match tcx.global_alloc(prov.alloc_id()) {
+                    GlobalAlloc::Function { instance } => {
+                        let owner = self.cur_owner.get().unwrap_or(instance.def_id());
+                        Some(J::obj(vec![
+                            ("ty", self.ty(t)),
+                            ("fnptr", self.fn_ref(owner, instance.def_id(), instance.args)),
+                        ]))
+                    }
+                    _ => None,
+                }
             }
             _ => None,
         }
@@ -555,6 +737,7 @@ impl<'tcx> Cx<'tcx> {
     }
 
     fn body(&self, owner: DefId, body: &Body<'tcx>) -> J {
+        self.cur_owner.set(Some(owner));
         let mut locals = Vec::new();
         let mut names: Vec<Option<String>> = vec![None; body.local_decls.len()];
         for vdi in &body.var_debug_info {
@@ -652,11 +835,12 @@ fn dump_adt<'tcx>(cx: &Cx<'tcx>, did: DefId) -> J {
 }
 
 fn dump_crate<'tcx>(tcx: TyCtxt<'tcx>, name: &str) -> J {
-    let cx = Cx { tcx, seen_adts: Default::default(), ext_todo: Default::default(), ext_seen: Default::default(), mono: std::cell::Cell::new(false) };
+    let cx = Cx { tcx, seen_adts: Default::default(), ext_todo: Default::default(), ext_seen: Default::default(), ext_generic_todo: Default::default(), mono: std::cell::Cell::new(false), cur_owner: std::cell::Cell::new(None), fnref_depth: std::cell::Cell::new(0) };
     let mut adts = Vec::new();
     let mut impls = Vec::new();
     let mut consts = Vec::new();
     let mut traits = Vec::new();
+    let mut statics = Vec::new();
     for ldid in tcx.hir_crate_items(()).definitions() {
         let did = ldid.to_def_id();
         match tcx.def_kind(did) {
@@ -705,6 +889,28 @@ fn dump_crate<'tcx>(tcx: TyCtxt<'tcx>, name: &str) -> J {
                     }
                 }
                 consts.push(J::obj(v));
+            }
+            DefKind::Static { mutability, .. } => {
+                let t = tcx.type_of(did).instantiate_identity().skip_norm_wip();
+                let t = tcx
+                    .try_normalize_erasing_regions(TypingEnv::fully_monomorphized(), rustc_middle::ty::Unnormalized::new_wip(t))
+                    .unwrap_or(t);
+                cx.cur_owner.set(Some(did));
+                let mut v = vec![
+                    ("path", J::Str(tcx.def_path_str(did))),
+                    ("ty", cx.ty(t)),
+                    ("vis", J::Str(vis_str(tcx, did))),
+                    ("mutable", J::Bool(mutability.is_mut())),
+                    ("freeze", J::Bool(t.is_freeze(tcx, TypingEnv::fully_monomorphized()))),
+                ];
+                if let Ok(alloc) = tcx.eval_static_initializer(did) {
+                    let alloc_id = tcx.reserve_and_set_memory_alloc(alloc);
+                    let val = rustc_middle::mir::ConstValue::Indirect { alloc_id, offset: rustc_abi::Size::ZERO };
+                    if let Some(j) = cx.const_value(val, t, 0) {
+                        v.push(("val", j));
+                    }
+                }
+                statics.push(J::obj(v));
             }
             DefKind::Trait => {
                 let items = tcx
@@ -802,7 +1008,7 @@ fn dump_crate<'tcx>(tcx: TyCtxt<'tcx>, name: &str) -> J {
                 }
             }
         }
-        v.push(("name", J::Str(tcx.item_name(did).to_string())));
+        v.push(("name", J::Str(tcx.opt_item_name(did).map(|n| n.to_string()).unwrap_or_else(|| "{anon}".to_string()))));
         let body = tcx.optimized_mir(did);
         v.push(("body", cx.body(did, body)));
         let promoted = tcx.promoted_mir(did);
@@ -841,13 +1047,43 @@ fn dump_crate<'tcx>(tcx: TyCtxt<'tcx>, name: &str) -> J {
             ("unsafe", J::Bool(false)),
             ("sp", J::Str(sp)),
             ("x", J::Bool(exp)),
-            ("name", J::Str(tcx.item_name(rd).to_string())),
+            ("name", J::Str(tcx.opt_item_name(rd).map(|n| n.to_string()).unwrap_or_else(|| "{anon}".to_string()))),
             ("derived", J::Bool(false)),
             ("body", cx.body(rd, &mono)),
             ("promoted", J::Arr(vec![])),
         ]));
     }
     cx.mono.set(false);
+    // polymorphic library bodies (callees reached from generic local code)
+    let mut gi = 0usize;
+    loop {
+        let rd = {
+            let q = cx.ext_generic_todo.borrow();
+            if gi >= q.len() || gi >= 200 {
+                break;
+            }
+            q[gi]
+        };
+        gi += 1;
+        let body = tcx.optimized_mir(rd);
+        let (sp, exp) = span_json(tcx, tcx.def_span(rd));
+        ext_fns.push(J::obj(vec![
+            ("path", J::Str(tcx.def_path_str(rd))),
+            ("path_inst", J::Str(tcx.def_path_str(rd))),
+            ("generic", J::Bool(true)),
+            ("crate", J::Str(tcx.crate_name(rd.krate).to_string())),
+            ("kind", J::Str(format!("{:?}", tcx.def_kind(rd)))),
+            ("vis", J::s("ext")),
+            ("is_const", J::Bool(false)),
+            ("unsafe", J::Bool(false)),
+            ("sp", J::Str(sp)),
+            ("x", J::Bool(exp)),
+            ("name", J::Str(tcx.opt_item_name(rd).map(|n| n.to_string()).unwrap_or_else(|| "{anon}".to_string()))),
+            ("derived", J::Bool(false)),
+            ("body", cx.body(rd, body)),
+            ("promoted", J::Arr(vec![])),
+        ]));
+    }
 
     // non-local ADTs mentioned in any dumped type (Result, Option, ControlFlow, ...),
     // closed under their own field types
@@ -886,6 +1122,7 @@ fn dump_crate<'tcx>(tcx: TyCtxt<'tcx>, name: &str) -> J {
         ("traits", J::Arr(traits)),
         ("impls", J::Arr(impls)),
         ("consts", J::Arr(consts)),
+        ("statics", J::Arr(statics)),
         ("skipped_mir_keys", J::Arr(skipped)),
         ("fns", J::Arr(fns)),
     ])
